@@ -16,7 +16,7 @@ pub const DEF: PropDef = PropDef {
     run,
     replay,
     level: "exploration",
-    rule: "complete enumeration of the finite configuration space: (A) 38 patterns x {25519,P256} x all 16 combinations of {local static, remote static} supplied to the two roles: each build must be Ok iff the role's required keys (derived from the harness's own pattern table: local static iff the role's s occurs as pre-message or message token; remote static iff the peer's s is a pre-message) are supplied, else Err(Prereq(..)) naming a missing item; every pair that builds runs an honest handshake that must complete without any error. (B) 38 patterns x psk modifier sets (every single index 0..=9, every subset of 0..=4, fallback, psk+fallback) with all keys: Ok iff every index <= #messages and no fallback, else Err(Pattern(InvalidPsk|UnsupportedModifier)). (C) resolvers lacking each of rng/dh/hash/cipher and DH 448 x both roles x generate_keypair: the matching Err(Init(Get..Impl)). (D) psk handshake strings x every subset of PSKs supplied at build time on either side: the handshake proceeds exactly until the first call whose message contains an unsupplied psk token, that call returns Err, and such a pair never completes. Non-trivial = a configuration where exactly one required item is missing or an optional one is extra, or a PSK is missing; distinct by configuration tuple",
+    rule: "complete enumeration of the finite configuration space: (A) 38 patterns x {25519,P256} x all 16 combinations of {local static, remote static} supplied to the two roles: each build must be Ok iff the role's required keys (derived from the harness's own pattern table: local static iff the role's s occurs as pre-message or message token; remote static iff the peer's s is a pre-message) are supplied, else Err(Prereq(..)) naming a missing item; every pair that builds runs an honest handshake that must complete without any error. (B) 38 patterns x psk modifier sets (every single index 0..=9, every subset of 0..=4, fallback, psk+fallback) with all keys: Ok iff every index <= #messages and no fallback, else Err(Pattern(InvalidPsk|UnsupportedModifier)). (C) resolvers lacking each of rng/dh/hash/cipher and DH 448 x both roles x generate_keypair: the matching Err(Init(Get..Impl)). (D) psk handshake strings x every subset of PSKs supplied at build time on either side (PSK values random, and - for equal subsets - an all-zero / all-ones first PSK): the handshake proceeds exactly until the first call whose message contains an unsupplied psk token, that call returns Err, and such a pair never completes. Non-trivial = a configuration where exactly one required item is missing or an optional one is extra, or a PSK is missing; distinct by configuration tuple",
     technique: "exhaustive enumeration of the builder configuration space against requirements derived from an independent pattern table",
     assumptions: &[],
     panic_is_violation: false,
@@ -32,7 +32,14 @@ pub enum Case {
     /// C: lacking primitive kind 0 rng 1 dh 2 hash 3 cipher, 4 = DH 448 with the default resolver
     Lacking { kind: u8, initiator: bool, pattern: String },
     /// D: psk subsets supplied at build
-    PskSupply { hs: HsName, supplied_i: Vec<u8>, supplied_r: Vec<u8> },
+    PskSupply {
+        hs: HsName,
+        supplied_i: Vec<u8>,
+        supplied_r: Vec<u8>,
+        /// 0 random PSK values, 1 the first PSK is all zero, 2 all ones (values a caller may use)
+        #[serde(default)]
+        shape: u8,
+    },
 }
 
 fn oracle(c: &Case, acc: &mut Acc) -> CaseResult {
@@ -162,8 +169,12 @@ fn oracle(c: &Case, acc: &mut Acc) -> CaseResult {
             acc.label("C:lacking_resolver");
             acc.nontrivial(&format!("{c:?}"));
         },
-        Case::PskSupply { hs, supplied_i, supplied_r } => {
-            let spec = SessionSpec::simple(hs.clone(), suites[(hs.psks.len() * 5) % suites.len()], 0xC12D);
+        Case::PskSupply { hs, supplied_i, supplied_r, shape } => {
+            let spec = SessionSpec::simple(hs.clone(), suites[(hs.psks.len() * 5) % suites.len()], [0xC12Du64, 0xC129, 0xC12A][*shape as usize % 3]);
+            if *shape % 3 != 0 {
+                ensure!(spec.psk(*hs.psks.iter().min().unwrap()) == [[0u8; 32], [0xffu8; 32]][*shape as usize % 3 - 1], "harness: shaped psk");
+                acc.label("D:shaped_psk_value");
+            }
             let name = spec.name_string();
             let omit = |sup: &Vec<u8>| hs.psks.iter().copied().filter(|n| !sup.contains(n)).collect::<Vec<u8>>();
             let (om_i, om_r) = (omit(supplied_i), omit(supplied_r));
@@ -269,7 +280,12 @@ pub fn run(ctx: &Ctx) {
         for mi in 0..(1u32 << k) {
             for mr in 0..(1u32 << k) {
                 let sel = |m: u32| hs.psks.iter().enumerate().filter(|(i, _)| m & (1 << i) != 0).map(|(_, n)| *n).collect::<Vec<u8>>();
-                cases.push(Case::PskSupply { hs: hs.clone(), supplied_i: sel(mi), supplied_r: sel(mr) });
+                cases.push(Case::PskSupply { hs: hs.clone(), supplied_i: sel(mi), supplied_r: sel(mr), shape: 0 });
+                if mi == mr {
+                    // the all-zero / all-ones PSK is a supplied PSK like any other
+                    cases.push(Case::PskSupply { hs: hs.clone(), supplied_i: sel(mi), supplied_r: sel(mr), shape: 1 });
+                    cases.push(Case::PskSupply { hs: hs.clone(), supplied_i: sel(mi), supplied_r: sel(mr), shape: 2 });
+                }
             }
         }
     }
